@@ -98,8 +98,11 @@ def check_case(ctx, case, routes=ROUTES, reverse=False):
     mode = case.get("mode", "tree")
     names = sorted(S.variables(s))
     ctx.count("cases")
-    for pj in case["points"]:
-        p = S.point_from_json(pj)
+    e = S.build(s, mode)            # one long-lived expression object; route objects are built once on it
+    robjs = {}
+    history = []                    # (route object key, point, first outcome)
+    pts = [S.point_from_json(pj) for pj in case["points"]]
+    for p, pj in zip(pts, case["points"]):
         res = R.NORMAL.evaluate(s, p)
         ctx.hist("reference_status", res.status)
         if res.status != "def":
@@ -125,8 +128,11 @@ def check_case(ctx, case, routes=ROUTES, reverse=False):
                 if route.endswith("_number"):
                     if var not in p:
                         continue
-                e = S.build(s, mode)
-                out = M.route_call(route, e, var, pp)
+                key = (route, var)
+                if key not in robjs:
+                    robjs[key] = M.Route(route, e, var)
+                out = robjs[key].query(pp)
+                history.append((key, pp, out))
                 ctx.evaluation()
                 ctx.hist("routes", route)
                 what = f"{route}: d/d{var} of {S.show(s)} at {S.show_point(p)}"
@@ -143,6 +149,14 @@ def check_case(ctx, case, routes=ROUTES, reverse=False):
                 if ctx.rng.random() < 0.02:
                     ctx.sample({"spec": S.show(s), "point": S.show_point(p), "variable": var,
                                 "true_partial_enclosure": [R.lo_float(d), R.hi_float(d)], "exact_required": bool(exact_ok and dx is not None)})
+    # the same long-lived objects asked again, with an evaluation of the shared expression at another point in between
+    for i, (key, pp, out) in enumerate(reversed(history[-24:])):
+        if len(pts) > 1:
+            M.call(e.at, S.make_point(pts[i % len(pts)]))
+        again = robjs[key].query(pp)
+        ctx.count("revisits")
+        if again.numbits() != out.numbits():
+            ctx.violation("requery_differs", f"{key[0]}: d/d{key[1]} of {S.show(s)} at {S.show_point(pp)}: first {out.brief()}, after other queries on the same objects {again.brief()}")
 
 
 def deciding(m):
